@@ -199,5 +199,13 @@ def case_single(sp, tier):
     old = {"a": set_grad(prog["a"], "a"), "b": None, "c": None}
     A = AStar()
     y = prog["y"]
-    backward(y if choice(2, "tensor_or_list") == 0 else [y], A, inputs=as_container([prog[n] for n in ins], kind), parallel_chunk_size=k)
+    form = choice(3, "tensors_form")
+    extra = dict(chunk=k, hash_order=horder, container=["list", "tuple", "generator", "iterator"][kind], dtype="float64" if f64 else "float32",
+                 tensors_form=["tensor", "list", "tuple"][form])
+    try:
+        backward([y, [y], (y,)][form], A, inputs=as_container([prog[n] for n in ins], kind), parallel_chunk_size=k)
+    except (ValueError, TypeError, RuntimeError, AttributeError) as e:
+        return [Ob("valid_call_is_accepted", False, lambda model, e=e: dict(kind="autojac_backward", spec=spec_json(spec), outputs=["y"], inputs=ins, jac=jac_values(model, prog),
+                                                                            v=[], old={}, raised=f"{type(e).__name__}: {e}", **extra))]
+    return _finish(sp, prog, spec, ["y"], ins, A, old, extra)
     return _finish(sp, prog, spec, ["y"], ins, A, old, dict(chunk=k, hash_order=horder, container=["list", "tuple", "generator", "iterator"][kind], dtype="float64" if f64 else "float32"))
